@@ -57,6 +57,51 @@ CLAIMED.update({
              note=_DF_NOTE, design_ref="DESIGN.md sec. 3 C45"),
 })
 
+_ENUM_NOTE = ("Trusted: z3, the symx proxies (every completed path is replayed natively with the model's concrete values on the unpatched code and must "
+              "agree). ")
+CLAIMED.update({
+ "C06": dict(text="The real dask.order.order runs on every graph of a bounded grammar (<=3-5 nodes, eight node kinds incl. task-spec objects, every edge "
+                  "subset, references to keys outside the graph, one back edge for cyclic variants): key set preserved, priorities pairwise distinct, "
+                  "every key ordered after its in-graph dependencies, cyclic graphs rejected. The inputs carry no arithmetic, so z3 enumerates the shape "
+                  "bits and proves the decision tree exhausted: bounded exhaustive, not an all-graphs claim.",
+             note=_ENUM_NOTE + "Outside: ordering quality, graphs above the node bound.", design_ref="DESIGN.md sec. 3 C06",
+             technique="bounded symbolic execution of the real order() with solver-enumerated graph shapes (symx + z3), per-path native replay"),
+ "C07": dict(text="The real toposort/getcycle/isdag run on every digraph (adjacency bits incl. self-loops) with <=3-4 nodes and every start-key subset, through "
+                  "dependencies= and as legacy graphs: toposort is a dependency-respecting permutation and raises iff cyclic (independent closure oracle); "
+                  "getcycle returns [] iff no reachable cycle, else a closed walk along real edges; isdag == not getcycle. A per-path watchdog reports "
+                  "non-termination as a violation.",
+             note=_ENUM_NOTE + "Adjacency bits are solver-enumerated (bounded exhaustive). Outside: graphs above the node bound.", design_ref="DESIGN.md sec. 3 C07",
+             technique="bounded symbolic execution of the real _toposort with solver-enumerated digraphs (symx + z3), per-path native replay"),
+ "C17": dict(text="The real dask.config.set/_assign/__exit__/canonical_name/get/update/merge/collect_env/serialize run on a private config; keys come from a "
+                  "20-key universe of hyphen/underscore spellings and prefixes, stored values are unbounded symbolic ints, so 'restored exactly' and "
+                  "'either spelling reads the value' are z3 equalities over all values; nested contexts up to depth 2-3; failing set() must leave the "
+                  "config untouched.",
+             note=_ENUM_NOTE + "Keys, nesting and initial shapes are solver-enumerated. Outside: YAML files, refresh, deprecations, locks, keys outside the universe.",
+             design_ref="DESIGN.md sec. 3 C17"),
+ "C18": dict(text="format_bytes length decided for ALL n in [0, 2**60) as one symbolic integer with an exact integer model of float(n)/2**k and '.2f' rounding "
+                  "(validated natively on every path model and on the z3-computed boundary); unit tables of parse_bytes/parse_timedelta over every spelling "
+                  "x case mask x symbolic mantissa; CrossHair bug-hunts on free strings for parse_bytes/key_split/natural_sort_key (counted only when "
+                  "'Confirmed over all paths'). The one listed known finding (11 characters from 999.995 PiB up) is excluded by predicate and the solver is "
+                  "re-asked outside it.",
+             note=_ENUM_NOTE + "Integer model of IEEE double rounding for n < 2**63 and of correctly-rounded '.2f' formatting; CrossHair 0.0.110. Outside: n >= 2**60, "
+                  "format_time, fractional mantissas.", design_ref="DESIGN.md sec. 3 C18", engine="symx+crosshair", crosshair=True,
+             technique="symbolic execution of the real format_bytes/parse_* with z3 (symx) using an integer model of float rounding; CrossHair for free-form strings"),
+ "C23": dict(text="Bounded symbolic execution of normalize_chunks and the rechunk planners with symbolic shape dims / chunk sizes / probe position: every "
+                  "returned dimension is positive-sized and sums to the shape; old_to_new pieces address exactly the probe's global position in order; "
+                  "divide_to_width/merge_to_number preserve sums and bounds; plan_rechunk stages sum to the shape and end at the target; auto chunks respect "
+                  "the byte limit. Float-driven planners (auto_chunks, plan_rechunk) concretise their inputs: bounded exhaustive there.",
+             note=_ENUM_NOTE + "Module-global shims int/math.isnan/np.isnan/np.ceil for the symbolic run; exact-rational treatment of int/int below 2**53 (lemma in "
+                  "DESIGN.md). Outside: previous_chunks / >=2 auto dims, NaN chunks, p2p.", design_ref="DESIGN.md sec. 3 C23"),
+ "C50": dict(text="CrossHair (z3 string theory) confirms over all paths that the real bag.text.decode and file_to_blocks equal the reference split for every text "
+                  "(len<=4-6) and delimiter (len<=2-3), each with a reachability twin; symx runs read_bytes' offset/length loop with symbolic file size and "
+                  "blocksize (float arithmetic concretises: bounded exhaustive over size,blocksize<=40-120): offsets contiguous from 0, positive lengths, sum == "
+                  "size; every witness replayed end-to-end through read_bytes/read_text on a temp file.",
+             note="Trusted: z3, CrossHair 0.0.110 and its str model, duck-typed block/file fakes, symx proxies (per-path native replay). Outside: fsspec's read_block "
+                  "delimiter seek (third-party; e2e witnesses only), non-utf-8 encodings, compression, newline-family delimiters in file_to_blocks' StringIO path.",
+             design_ref="DESIGN.md sec. 3 C50", engine="symx+crosshair", crosshair=True,
+             technique="CrossHair symbolic execution (z3 strings) of decode/file_to_blocks; symx symbolic execution of read_bytes offsets; native e2e replay"),
+})
+
 NOT_APPLICABLE = {}
 
 _NA_DESIGN = {
